@@ -1305,7 +1305,7 @@ static void compute_primalI_inf (
 	if (EGLPNUM_TYPENAME_EGlpNumIsLess (*ftol, *x) && EGLPNUM_TYPENAME_EGlpNumIsNeqq (*u, EGLPNUM_TYPENAME_INFTY))
 		EGLPNUM_TYPENAME_EGlpNumCopy (*inf, *x);
 	else if (EGLPNUM_TYPENAME_EGlpNumIsNeqq (*l, EGLPNUM_TYPENAME_NINFTY) && EGLPNUM_TYPENAME_EGlpNumIsSumLess (*x, *ftol,EGLPNUM_TYPENAME_zeroLpNum))
-		EGLPNUM_TYPENAME_EGlpNumCopy (*inf, *x);
+		EGLPNUM_TYPENAME_EGlpNumCopyNeg (*inf, *x);
 }
 
 static void compute_primalII_inf (
